@@ -1,52 +1,11 @@
 /- L0 facts about the generated SlowStochastic (any `[Scalar F]`): EMA fed with FastStochastic. -/
+import TaRs.Lemmas.Core.SlowStochastic
 import TaRs.Gen.SlowStochastic
 import TaRs.Lemmas.FastStochastic
 import TaRs.Lemmas.ExponentialMovingAverage
 namespace TaRs.Gen.SlowStochastic
 open TaRs TaRs.Rs
 variable {F : Type} [Scalar F]
-
-/-- the state `new(stochastic_period, ema_period)` builds -/
-def fresh (sp ep : Nat) : SlowStochastic F :=
-  { fast_stochastic := FastStochastic.fresh sp, ema := ExponentialMovingAverage.fresh ep }
-
-structure WF (s : SlowStochastic F) : Prop where
-  fast : FastStochastic.WF s.fast_stochastic
-  ema : ExponentialMovingAverage.WF s.ema
-
-/-- `new` exactly as generated: `FastStochastic::new(stochastic_period)?` is evaluated FIRST, so its
-    `Err` (period 0) or its capacity-overflow panic (`stochastic_period * 8 > isize::MAX`) wins over
-    what `ExponentialMovingAverage::new(ema_period)?` returns (which never panics).  In particular
-    `new(2^61, 0)` PANICS rather than returning `Err(InvalidParameter)`: "Err iff some period is 0"
-    only holds when the first constructor does not panic (see `new_err_iff`). -/
-theorem new_eq (sp ep : Nat) :
-    (new sp ep : Res (SlowStochastic F)) =
-      if sp = 0 then .err .InvalidParameter
-      else if ¬ sp * 8 ≤ isizeMax then .panic
-      else if ep = 0 then .err .InvalidParameter
-      else .ok (fresh sp ep) := by
-  unfold new
-  rw [FastStochastic.new_eq, ExponentialMovingAverage.new_eq]
-  by_cases h0 : sp = 0
-  · simp [h0, bind, Res.bind]
-  · by_cases h1 : sp * 8 ≤ isizeMax
-    · by_cases h2 : ep = 0 <;> simp [h0, h1, h2, bind, Res.bind, fresh]
-    · simp [h0, h1, bind, Res.bind]
-
-/-- which arguments give `Err`: a zero period, unless the stochastic window overflows first -/
-theorem new_err_iff (sp ep : Nat) (e : TaError) :
-    (new sp ep : Res (SlowStochastic F)) = .err e ↔
-      e = .InvalidParameter ∧ (sp = 0 ∨ (sp * 8 ≤ isizeMax ∧ ep = 0)) := by
-  rw [new_eq]
-  by_cases h0 : sp = 0
-  · simp [h0, eq_comm]
-  · by_cases h1 : sp * 8 ≤ isizeMax
-    · by_cases h2 : ep = 0 <;> simp [h0, h1, h2, eq_comm]
-    · simp [h0, h1]
-
-theorem fresh_wf (sp ep : Nat) (hs : 0 < sp) (h8 : sp * 8 ≤ isizeMax) (he : 0 < ep) :
-    WF (fresh sp ep : SlowStochastic F) :=
-  ⟨FastStochastic.fresh_wf sp hs h8, ExponentialMovingAverage.fresh_wf ep he⟩
 
 /-- scalar path: output = EMA step applied to the FastStochastic output -/
 theorem next_wiring (s : SlowStochastic F) (x : F) (fs' : FastStochastic F) (k : F)
